@@ -53,6 +53,12 @@ pub fn run<F: FnOnce() -> String>(limits: &Limits, f: F) -> Exit {
         if pid == 0 {
             // child
             libc::close(fds[0]);
+            // never outlive the worker: if the orchestrator's watchdog kills the worker, a
+            // spinning child would otherwise keep the worker's output pipe open forever
+            libc::prctl(libc::PR_SET_PDEATHSIG, libc::SIGKILL);
+            // and never run longer than a generous multiple of the parent's own watchdog
+            let rl = libc::rlimit { rlim_cur: limits.wall.as_secs().saturating_mul(2).max(60), rlim_max: limits.wall.as_secs().saturating_mul(2).max(60) + 5 };
+            libc::setrlimit(libc::RLIMIT_CPU, &rl);
             if limits.address_space > 0 {
                 let rl = libc::rlimit {
                     rlim_cur: limits.address_space,
